@@ -49,8 +49,8 @@ NRB_CASES = [("lt16", "nrbytes < 16"), ("gt64", "nrbytes > 64")] + \
             [("eq%d" % k, "nrbytes == %d" % k) for k in range(16, 65)]
 
 
-NRB_QUICK = ["lt16", "eq16", "eq17", "eq18", "eq32", "eq63", "eq64"]
-NRB_QUICK_NOTE = ("quick tier discharges the cases nrbytes < 16 and nrbytes in {16, 17, 18, 32, 63, 64} "
+NRB_QUICK = ["lt16", "eq16", "eq17", "eq18", "eq32", "eq63", "eq64", "gt64"]
+NRB_QUICK_NOTE = ("quick tier discharges the cases nrbytes < 16, nrbytes > 64 and nrbytes in {16, 17, 18, 32, 63, 64} "
                   "(all three residues mod 3 and both ends); the thorough tier discharges the exhaustive "
                   "partition nrbytes < 16, 16..64, > 64")
 
